@@ -92,6 +92,14 @@ def decorate(rng, form):
         form.setdefault("choices", []).append({"list_name": "ext", "name": "a", "label": "A"})
         form["external_choices"] = [{"list_name": "ext", "name": f"n{i}", "state": "s", "county": "c", "zz": "1", "aa": str(i)} for i in range(3)]
         form["__no_header"] = [{}]
+    if qs and rng.random() < 0.35:
+        # a select whose choice filter holds the only reference of its kind (regenerating the XML must not consume it)
+        tgt = rng.choice(qs)["name"]
+        survey.append({"type": rng.choice(["select_one cf9", "select_multiple cf9"]), "name": "cf_q", "label": "c",
+                       "choice_filter": rng.choice(["cf = ${last-saved#%s}" % tgt, "cf = ${%s}" % tgt, "selected(${%s}, name)" % tgt])})
+        form.setdefault("choices", []).extend({"list_name": "cf9", "name": n, "label": n.upper(), "cf": "x"} for n in ("a", "b"))
+    if rng.random() < 0.25:
+        forms.add_exotics(rng, form, ["search", "osm", "legacy_hint", "count_expr", "calc_msgs", "audit"], p=0.5)
     return form
 
 
@@ -207,10 +215,13 @@ def oracle(seed, tier, searching=False):
             _sys.setswitchinterval(old)
         # (c') the forced schedule on the shared expression scanner (was finding F13; repaired by a lock)
         try:
-            value, start, end = scanner_forced_schedule()
-            if (start, end) != (0, len(value)):
-                fails.append({"what": f"shared expression scanner: under a forced two-thread schedule token {value!r} reports start={start} end={end}, "
-                                      "the other thread's match position (and parse_expression caches it)", "input": {"schedule": "park A after self.match = m; run B; resume A"}})
+            for b_entry in ("parse_expression", "default_is_dynamic", "find_boundaries", "validate_pyxform_reference_syntax"):
+                value, start, end = scanner_forced_schedule(b_entry)
+                if (start, end) != (0, len(value)):
+                    fails.append({"what": f"shared expression scanner: under a forced two-thread schedule (other thread inside {b_entry}) token {value!r} reports start={start} "
+                                          f"end={end}, the other thread's match position (and parse_expression caches it)",
+                                  "input": {"schedule": f"park A after self.match = m; run B = {b_entry}(...); resume A"}})
+                    break
         except Exception as e:
             fails.append({"what": f"forced scanner schedule could not be run: {e!r}", "input": {}})
         # (d) regeneration from the same survey object
@@ -249,7 +260,7 @@ def oracle(seed, tier, searching=False):
     }
 
 
-def scanner_forced_schedule():
+def scanner_forced_schedule(b_entry="parse_expression"):
     """Deterministic forced schedule: park thread A inside re.Scanner.scan right after it stored its match, let
     thread B parse another expression, resume A.  Returns (value, start, end) of A's first token.  No source change
     (sys.settrace); goes through parse_expression with never-seen strings so the lru_cache cannot answer."""
@@ -282,8 +293,21 @@ def scanner_forced_schedule():
 
     def thread_b():
         a_parked.wait(5)
-        out["b"] = parse_expression(f"zzzzzzzzzzzzzzzzzzzzzzzz - yyyyyyyy{nonce}")[0]
-        b_done.set()
+        text = f"zzzzzzzzzzzzzzzzzzzzzzzz - yyyyyyyy{nonce}"
+        try:
+            if b_entry == "parse_expression":
+                out["b"] = parse_expression(text)[0]
+            elif b_entry == "default_is_dynamic":
+                from pyxform.utils import default_is_dynamic
+                out["b"] = default_is_dynamic(text, "date")
+            elif b_entry == "find_boundaries":
+                from pyxform.parsing.instance_expression import find_boundaries
+                out["b"] = find_boundaries(text)
+            else:
+                from pyxform.validators.pyxform.pyxform_reference import validate_pyxform_reference_syntax
+                out["b"] = validate_pyxform_reference_syntax(text, "survey", 2, "label")
+        finally:
+            b_done.set()
     ta, tb = threading.Thread(target=thread_a), threading.Thread(target=thread_b)
     ta.start(); tb.start(); ta.join(); tb.join()
     first = out["a"][0]
